@@ -403,6 +403,29 @@ theorem unload_terminates (g : Graph) (libs registered : List Str) (p : Str) :
     ∃ r, unloadFuel g libs (registered.length + 1) registered p = some r ∧ r.1.length ≤ registered.length :=
   visit_terminates (dependents g libs) (registered.length + 1) registered [] p (Nat.lt_succ_self _)
 
+/-- What `Modules.unload(p)` leaves behind (the law the search checks on the real code, `graph-unload:stale-importer`): for a registry
+    without duplicates (a dict's keys) the call ends, `p` is gone, and no module that is still registered imports `p` — nor, when `p`
+    is a library module, is any non-library module left. Cycles included. -/
+theorem unload_clears_importers (g : Graph) (libs registered : List Str) (p : Str) (hnd : registered.Nodup) (hp : p ∈ registered) :
+    ∃ r, unloadFuel g libs (registered.length + 1) registered p = some r ∧ p ∉ r.1 ∧
+      ∀ q ∈ r.1, (g.imports q).contains p = false ∧ (libs.contains p = true → libs.contains q = true) := by
+  obtain ⟨r, hr, _⟩ := unload_terminates g libs registered p
+  refine ⟨r, hr, ?_, ?_⟩
+  · exact (visit_post (dependents g libs) (registered.length + 1) registered [] p r hnd hr).2.2
+  · intro q hq
+    obtain ⟨hsub, hclr⟩ := visit_clears_next (dependents g libs) registered.length registered [] p r hnd hp hr
+    have hq' := hsub q hq
+    have hnot := fun hmem => hclr q hmem hq
+    simp only [dependents, List.mem_filter, Bool.or_eq_true, Bool.and_eq_true, Bool.not_eq_true'] at hnot
+    constructor
+    · cases hc : (g.imports q).contains p with
+      | false => rfl
+      | true => exact absurd ⟨hq', Or.inl hc⟩ hnot
+    · intro hl
+      cases hlq : libs.contains q with
+      | true => rfl
+      | false => exact absurd ⟨hq', Or.inr ⟨hl, hlq⟩⟩ hnot
+
 /-- non-vacuity: a ↔ b import each other and a imports itself; unloading a removes both, a first -/
 example :
     unloadFuel [(['a'], [['b'], ['a']]), (['b'], [['a']])] [] 3 [['a'], ['b']] ['a'] = some ([], [['a'], ['b']]) := by
@@ -665,6 +688,40 @@ theorem turn_unload_unprotected (x : Exc) (hx : x.inHierarchy = false) (hk : x.c
   loop_dies x hx hk render
 
 example : (Exc.ofBuiltin .RecursionError .none).inHierarchy = false ∧ (Exc.ofBuiltin .RecursionError .none).cls.isA (.bi .KeyboardInterrupt) = false := by decide
+
+
+/-! ### Writer.flush -/
+
+/-- `Writer.flush` retries exactly once and only on PermissionError (the audit's `retry` clause): it ends ok, or with the exception of
+    the directory creation, of a first attempt that is not retried, or of the second attempt — nothing is swallowed beyond the one retry. -/
+theorem writer_flush_outcome (mkdir first second : Except Exc Unit) :
+    match writerFlush mkdir first second with
+    | .ok _ => True
+    | .error y => mkdir = .error y ∨ (first = .error y ∧ catchesAny writerRetryCatch y = false) ∨
+        (second = .error y ∧ ∃ x, first = .error x ∧ catchesAny writerRetryCatch x = true) := by
+  unfold writerFlush
+  cases mkdir with
+  | error x => exact Or.inl rfl
+  | ok u =>
+    cases first with
+    | ok v => trivial
+    | error x =>
+      simp only
+      cases hc : catchesAny writerRetryCatch x with
+      | false => simp [hc]
+      | true =>
+        cases second with
+        | ok w => simp
+        | error y => simp [hc]
+
+theorem writer_retry_table : writerRetryCatch = [.bi .PermissionError] := by decide
+
+/-- non-vacuity: a PermissionError on the first attempt is retried; a second one leaves; any other OSError is not retried -/
+example :
+    (match writerFlush (.ok ()) (.error (Exc.ofBuiltin .PermissionError .other)) (.ok ()) with | .ok _ => true | _ => false) = true ∧
+    (match writerFlush (.ok ()) (.error (Exc.ofBuiltin .PermissionError .other)) (.error (Exc.ofBuiltin .PermissionError .other)) with | .error y => y.cls.isA (.bi .PermissionError) | _ => false) = true ∧
+    (match writerFlush (.ok ()) (.error (Exc.ofBuiltin .FileNotFoundError .other)) (.ok ()) with | .error y => y.cls.isA (.bi .FileNotFoundError) | _ => false) = true := by
+  decide
 
 
 end Tranp.C07
